@@ -52,8 +52,8 @@ Print Assumptions C03_decomposition_with_at_most_npos_paths_exists.
    for k is feasible  <=>  a decomposition into k paths (zero weights allowed) exists, which is what
    "feasible k" means in the search theorem (2). *)
 Theorem C03_every_decomposition_satisfies_the_lp :
-  forall (I : kfd_inst) (P : N -> list node) (w : N -> Q),
-  PathEncProofs.wf_graph (p_graph (f_base I)) -> p_cons (f_base I) = [] -> p_allow_empty (f_base I) = false ->
+  forall (I : kfd_inst) (P : N -> list node) (w : N -> Q) (ch : N -> N),
+  PathEncProofs.wf_graph (p_graph (f_base I)) -> p_allow_empty (f_base I) = false ->
   (forall i, In i (layers (p_k (f_base I))) ->
      hd_error (P i) = Some (g_src (p_graph (f_base I))) /\
      last (P i) (g_src (p_graph (f_base I))) = g_snk (p_graph (f_base I)) /\
@@ -61,7 +61,8 @@ Theorem C03_every_decomposition_satisfies_the_lp :
   (forall i, In i (layers (p_k (f_base I))) -> (0 <= w i <= f_wmax I)%Q /\ (f_int I = true -> is_int (w i))) ->
   (forall e, In e (g_edges (p_graph (f_base I))) -> mem_edge e (f_ignore I) = false ->
      (sumq (fun i => w i * indq (mem_edge e (EulerProofs1.pairs (P i)))) (layers (p_k (f_base I))) == lookup_q e (f_flow I) 0)%Q) ->
-  sat (asg P w) (encode_kfd I).
+  p_cons (f_base I) = [] ->
+  sat (asg P w ch) (encode_kfd I).
 Proof. exact kfd_complete. Qed.
 Print Assumptions C03_every_decomposition_satisfies_the_lp.
 
@@ -92,6 +93,46 @@ Theorem C03_minflowdecomp_returns_the_minimum :
 Proof. exact mfd_returns_minimum. Qed.
 Print Assumptions C03_minflowdecomp_returns_the_minimum.
 
-(* remaining gap, stated: the same characterisation in the presence of subpath constraints (R variables),
-   node-weighted input (goes through C11's expansion theorems) and the guessed-weights / greedy shortcuts
+(* (8) the same two statements WITH subpath constraints (R variables, rows 7a/7b, coverage fraction, edge lengths):
+   the k-model is feasible iff k weighted paths explain the flow AND every constraint is covered to the required
+   fraction by one of them; hence the search returns the least such k *)
+Theorem C03_k_model_with_constraints_feasible_iff : forall (I : kfd_inst) (rank : node -> nat) (Rm : nat),
+  PathEncProofs.wf_graph (p_graph (f_base I)) -> p_allow_empty (f_base I) = false ->
+  (forall u v, In (u, v) (g_edges (p_graph (f_base I))) -> (rank u < rank v)%nat) -> (forall v, (rank v <= Rm)%nat) ->
+  (forall c e, In c (p_cons (f_base I)) -> In e c -> In e (g_edges (p_graph (f_base I))) /\ (0 <= elen (f_base I) e)%Q) ->
+  ((exists a, sat a (encode_kfd I)) <-> (exists P w, decomposition I P w /\ constraints_covered (f_base I) P)).
+Proof. exact kfd_feasible_iff_cons. Qed.
+Print Assumptions C03_k_model_with_constraints_feasible_iff.
+
+Theorem C03_minflowdecomp_with_constraints_returns_the_minimum :
+  forall (inst : nat -> kfd_inst) (rank : node -> nat) (Rm : nat) (feasible : nat -> bool) (lb ub kopt : nat) (sts : list raw),
+  (forall k, p_k (f_base (inst k)) = k /\ PathEncProofs.wf_graph (p_graph (f_base (inst k))) /\
+             p_allow_empty (f_base (inst k)) = false /\
+             (forall u v, In (u, v) (g_edges (p_graph (f_base (inst k)))) -> (rank u < rank v)%nat) /\
+             (forall c e, In c (p_cons (f_base (inst k))) -> In e c ->
+                          In e (g_edges (p_graph (f_base (inst k)))) /\ (0 <= elen (f_base (inst k)) e)%Q)) ->
+  (forall v, (rank v <= Rm)%nat) ->
+  (forall k, feasible k = true <-> exists a, sat a (encode_kfd (inst k))) ->
+  (forall i, (i < ub - lb)%nat -> exists x, nth_error sts i = Some x /\
+             status_of x = if feasible (lb + i)%nat then Optimal else Infeasible) ->
+  (exists P w, decomposition (inst kopt) P w /\ constraints_covered (f_base (inst kopt)) P) ->
+  (forall k, (k < kopt)%nat -> ~ exists P w, decomposition (inst k) P w /\ constraints_covered (f_base (inst k)) P) ->
+  (lb <= kopt < ub)%nat ->
+  so_res (mpc_solve true lb ub sts) = Solved kopt.
+Proof. exact mfd_returns_minimum_cons. Qed.
+Print Assumptions C03_minflowdecomp_with_constraints_returns_the_minimum.
+
+(* remaining gap, stated: node-weighted input (goes through C11's expansion theorems) and the guessed-weights / greedy shortcuts
    (covered by C13's search theorems and C17's peeling theorem respectively) are not composed into one statement. *)
+
+(* non-vacuity (PathEncExample.v): a concrete instance with a subpath constraint meets every hypothesis of (8);
+   it has a constraint-covering decomposition with 2 paths and none with 1, so its 2-model is feasible and its
+   1-model infeasible *)
+From FP Require Import PathEncExample.
+Example C03_premises_satisfiable :
+  PathEncProofs.wf_graph (p_graph (f_base (exI 2))) /\
+  (decomposition (exI 2) exP exW /\ constraints_covered (f_base (exI 2)) exP) /\
+  (~ exists P w, decomposition (exI 1) P w /\ constraints_covered (f_base (exI 1)) P) /\
+  (exists a, sat a (encode_kfd (exI 2))) /\ (~ exists a, sat a (encode_kfd (exI 1))).
+Proof. exact (conj ex_wf (conj ex_decomposition (conj ex_no_decomposition_1 (conj ex_lp_feasible_2 ex_lp_infeasible_1)))). Qed.
+Print Assumptions C03_premises_satisfiable.
